@@ -66,6 +66,18 @@ def gen_classes(rng, n_docs=1):
                 c['meta_inputs'].append(ref)
         if rng.random() < 0.05:  # dangling or cyclic declarations
             c['meta_inputs'].append({'name': rng.choice(['nothing', '@later'])})
+        # inputs named in the signature of run (requested before the body of run starts): only inputs given by
+        # class, with a task name that is unambiguous among the inputs and is not a parameter name
+        by = {k['id']: k for k in classes}
+        refs = c['meta_inputs'] + [i['ref'] for i in c['param_inputs']]
+        if refs and not any('name' in r and r['name'].startswith('~') for r in refs) and rng.random() < 0.4:
+            shorts = [by[r['cls']]['name'] if 'cls' in r else r['name'].split(':')[-1] for r in refs]
+            pnames = {p['name'] for p in c['params']}
+            cands = [by[r['cls']]['name'] for r in c['meta_inputs'] if 'cls' in r
+                     and shorts.count(by[r['cls']]['name']) == 1 and by[r['cls']]['name'] not in pnames
+                     and by[r['cls']]['name'].isidentifier()]
+            if cands:
+                c['runargs'] = rng.sample(cands, rng.randrange(1, len(cands) + 1))
         classes.append(c)
     for c in classes:   # '@later': a reference to a class declared later (or to itself): cycles
         for r in c['meta_inputs']:
